@@ -917,6 +917,12 @@ void h_find(void)
 		"C15 find_command writes only c->cmd");
 }
 
+/*
+ * console_register on a table of any fill n (symbolic here: the function indexes the table, which stays cheap) with
+ * any sorted names and any new name.  The post-state is stated completely - every one of the 32 slots - from the
+ * names alone; that the table stays sorted and sentinel-terminated and that the new command is found afterwards
+ * (h_find: first exact match before the sentinel) are consequences of this layout.
+ */
 void h_register(void)
 {
 	VERIF_LOAD_INPUTS();
@@ -926,37 +932,36 @@ void h_register(void)
 	VASSUME(NEWNAME[0] != 0);
 	NEWCMD.name = NEWNAME;
 	NEWCMD.fn = cmd_generic;
-	for (unsigned n = 0; n < TBL_SLOTS; n++) {
-		table_of(n);
-		/* where the statement puts it: after every name that does not compare greater */
-		unsigned p = n;
-		for (unsigned i = TBL_SLOTS; i-- > 0;)
-			if (i < n && ref_name_cmp(NAMES[i], NEWNAME) > 0)
-				p = i;
+	unsigned n = IN.ntab;
+	VASSUME(n < TBL_SLOTS);
+	table_of(n);
+	/* where the statement puts it: after every name that does not compare greater */
+	unsigned p = n;
+	for (unsigned i = TBL_SLOTS; i-- > 0;)
+		if (i < n && ref_name_cmp(NAMES[i], NEWNAME) > 0)
+			p = i;
 
-		int r = console_register(&NEWCMD);
+	int r = console_register(&NEWCMD);
 
-		if (n == TBL_SLOTS - 1) {
-			bool same = true;
-			for (unsigned i = 0; i < TBL_SLOTS; i++)
-				same = same && cmd_table[i] == (i < n ? &POOL[i] : &cmd_unknown);
-			VASSERT(r == -1 && same, "C15 registration fails cleanly, changing nothing, when the table is full");
-		} else {
-			bool ok = true;
-			for (unsigned i = 0; i < TBL_SLOTS; i++) {
-				const console_cmd_t *want = i < p ? &POOL[i] : i == p ? &NEWCMD : i <= n ? &POOL[i - 1] : i == n + 1 ? &cmd_unknown : NULL;
-				ok = ok && cmd_table[i] == want;
-			}
-			VASSERT(r == 0, "C15 registration succeeds while the table has a free slot");
-			VASSERT(ok, "C15 console_register inserts the command in name order, keeps every earlier registration in order and the sentinel last");
-			VASSERT(tbl_inv() && tbl_sentinel() == (int)n + 1, "C15 the table stays sorted and sentinel-terminated");
-			VASSERT(cmd_table[ref_find(NEWNAME)]->name != NULL && ref_name_cmp(cmd_table[ref_find(NEWNAME)]->name, NEWNAME) == 0,
-				"C15 the registered command is found by its exact name afterwards");
+	if (n == TBL_SLOTS - 1) {
+		bool same = true;
+		for (unsigned i = 0; i < TBL_SLOTS; i++)
+			same = same && cmd_table[i] == (i < n ? &POOL[i] : &cmd_unknown);
+		VASSERT(r == -1 && same, "C15 registration fails cleanly, changing nothing, when the table is full");
+	} else {
+		bool ok = true;
+		for (unsigned i = 0; i < TBL_SLOTS; i++) {
+			const console_cmd_t *want = i < p ? &POOL[i] : i == p ? &NEWCMD : i <= n ? &POOL[i - 1] : i == n + 1 ? &cmd_unknown : NULL;
+			ok = ok && cmd_table[i] == want;
 		}
-		VCOVER(n == TBL_SLOTS - 2 && p == 0, "last free slot, insertion at the front");
-		VCOVER(n == 10 && p == 10, "insertion before the sentinel");
-		VCOVER(n > 4 && p == 2 && ref_name_cmp(NAMES[1], NEWNAME) == 0, "duplicate name");
+		VASSERT(r == 0, "C15 registration succeeds while the table has a free slot");
+		VASSERT(ok, "C15 console_register inserts the command in name order, keeps every earlier registration in order and the sentinel last: the table stays sorted and sentinel-terminated");
 	}
+	VCOVER(n == TBL_SLOTS - 1, "full table");
+	VCOVER(n == TBL_SLOTS - 2 && p == 0, "last free slot, insertion at the front");
+	VCOVER(n == 10 && p == 10, "insertion before the sentinel");
+	VCOVER(n == 0, "empty table");
+	VCOVER(n > 4 && p == 2 && ref_name_cmp(NAMES[1], NEWNAME) == 0, "duplicate name");
 }
 
 /* the built-in handlers under the command contract: entered with tokenizer output, they only read the arguments and exit */
